@@ -41,10 +41,12 @@ LEVEL = 'exploration'
 RULE = (
     'Transform: (p, s) with length 2^p, p in 0..14, block size 2^s, s in 1..8, '
     'is enumerated exhaustively (every pair with <= 6 Kronecker factors '
-    'ceil(p/s) in the quick tier, the three 7-factor pairs (7,1), (13,2), (14,2) '
-    'added in the thorough tier; pairs with >= 9 factors must raise the '
-    'documented ValueError; the single 8-factor pair (8,1) is left out on '
-    'compile cost) x call style {positional, keyword, default}, each with a '
+    'ceil(p/s) compiled as usual; the 7-factor pairs (7,1), (13,2), (14,2) and '
+    'the single 8-factor pair (8,1) are executed op by op under '
+    'jax.disable_jit() in the quick tier because compiling them as one XLA '
+    'program takes 14-450 s; the 7-factor pairs are also compiled in the '
+    'thorough tier; pairs with >= 9 factors must raise the documented '
+    'ValueError) x call style {positional, keyword, default}, each with a '
     'fixed integer vector, a fixed generic vector, three scaled unit vectors '
     'and the involution; Hypothesis additionally draws (p, s) from the '
     '<= 6-factor menu, the call style (positional / keyword / with an explicit '
@@ -68,9 +70,11 @@ ASSUMPTIONS = [
     'raise its documented ValueError ("small_n is too small", i.e. more than 8 '
     'Kronecker factors); that error is accepted for ceil(p/s) >= 9 and is a '
     'violation for ceil(p/s) <= 8',
-    'the 8-factor pair (p=8, s=1) is not executed (XLA compile ~450 s); the '
-    '7-factor pairs (7,1), (13,2), (14,2) (~14 s compile each) run in the '
-    'thorough tier only',
+    'the 8-factor pair (p=8, s=1) is executed only op by op under '
+    'jax.disable_jit() (XLA compile ~450 s), which runs the same public '
+    'function without the outer jit; the '
+    '7-factor pairs (7,1), (13,2), (14,2) (~14 s compile each) run jit-compiled '
+    'in the thorough tier only (op by op in the quick tier)',
     'only precision="highest" / jax.lax.Precision.HIGHEST (the default) is '
     'asserted: lower precisions are allowed to use reduced-precision passes',
     'comparison is bit-exact whenever every value is a multiple of 2^q and '
@@ -242,9 +246,17 @@ def _call_transform(x, s, call):
   raise AssertionError(call)
 
 
+_EAGER = [False]
+
+
 def call_transform(x, s, call):
   p = int(x.shape[0]).bit_length() - 1
   try:
+    if _EAGER[0]:
+      # op-by-op execution of the public function: pairs with 7-8 Kronecker
+      # factors take minutes to compile as one XLA program but seconds this way
+      with jax.disable_jit():
+        return jax.block_until_ready(_call_transform(x, s, call))
     return jax.block_until_ready(_call_transform(x, s, call))
   except ValueError as e:
     if 'small_n' in str(e) and 'too small' in str(e):
@@ -367,10 +379,18 @@ GRID_GEN = {'mod': 16777213, 'a': 2654435, 'b': 40503, 'c': 977, 'exp': -24,
 
 
 def run_grid(case):
+  _EAGER[0] = bool(case.get('eager'))
+  try:
+    return _run_grid(case)
+  finally:
+    _EAGER[0] = False
+
+
+def _run_grid(case):
   p, s, call = case['p'], effective_s(case), case['call']
   n = 2 ** p
   k = n_factors(p, s)
-  out = []
+  out = ['eager'] if case.get('eager') else []
   try:
     for name, spec in (('int', dict(GRID_INT, c=1 + p + s)), ('generic', GRID_GEN)):
       x64 = build_vec(spec, n)
@@ -406,6 +426,8 @@ def grid_cases(tier):
     for s in range(1, 9):
       k = n_factors(p, s)
       if k == 8 or (k == 7 and max_f < 7):
+        # too slow to compile as one program: executed with jit disabled
+        yield {'p': p, 's': s, 'call': 'pos', 'eager': True}
         continue
       calls = ['pos', 'kw'] if k < 7 else ['pos']
       for call in calls:
